@@ -13,7 +13,7 @@ RULE = ("random container trees (depth <= 3, fan-out <= 3, abstract flags, a sha
         "form on header and user-data fields) x packets with APID/selector values drawn from the values the criteria mention "
         "(every branch, dead end and ambiguity is reachable) sized exactly / one byte short / one byte long; unrecognized packets "
         "reported with their partial data; an APID parameter with another name; distinct = distinct (definition, packet)")
-ASSUMPTIONS = ["field decoding is the C04/C07/C08 model; header/user_data views are the first seven / remaining items"]
+ASSUMPTIONS = ["field decoding is the C04/C07/C08 model; the header / user_data views of every yielded packet and of every error's partial data are compared with the first seven / remaining items on the implementation (a difference is an item kind the model never produces)"]
 coq_input = genrun.coq_input
 impl = genrun.impl
 
@@ -42,7 +42,7 @@ def key(case):
 def branch(case, out):
     if isinstance(out, core.Err):
         return out.kind
-    kinds = sorted(set({0: "parsed", 1: "unrecognized", 2: "raw"}[it[0]] + ("-warned" if it[0] == 0 and it[3] else "") for it in out[0]))
+    kinds = sorted(set({0: "parsed", 1: "unrecognized", 2: "raw"}.get(it[0], "bad-views") + ("-warned" if it[0] == 0 and it[3] else "") for it in out[0]))
     return ",".join(kinds) + ("|fatal" if out[1] else "")
 
 
